@@ -31,6 +31,9 @@ type JoinSc struct {
 	StallFor int64    `json:"stall_for"`
 	Stop     *JStop   `json:"stop,omitempty"`
 	Horizon  int64    `json:"horizon"`
+	// Stalls (C10): durations by which the discipline's goroutine may be held up at a clock
+	// reading, before an operation or on waking up ("plus scheduling latency").
+	Stalls []int64 `json:"stalls,omitempty"`
 }
 
 // JBurst is a producer pause followed by writes. For join engines each entry of Lens
@@ -323,6 +326,12 @@ func genJoin(engine, prop string, r *simrt.SplitMix) *JoinSc {
 
 	sc.Horizon = joinHorizon(sc)
 
+	if prop == "C10" && sc.Timeout > 0 && r.Intn(3) == 0 {
+		iv := sc.interval()
+		sc.Stalls = []int64{1, 2, iv/2 + 1, iv + 1, sc.Timeout/3 + 1}
+		sc.Horizon += 4 * 4 * (sc.Timeout + iv + 2)
+	}
+
 	if (prop == "C03" || prop == "C09" || prop == "C08" || prop == "C11") && sc.Timeout <= 0 && sc.Stop == nil && r.Intn(8) == 0 {
 		// a timeout of centuries: indistinguishable from none within any run; the scenario
 		// (pauses, horizon) stays the one drawn for "no timeout"
@@ -387,6 +396,14 @@ type joinHandle struct {
 
 func buildJoin(sc *JoinSc) (simrt.Config, func()) {
 	cfg := simrt.Config{MaxSteps: 400_000, Horizon: time.Duration(sc.Horizon)}
+
+	for _, d := range sc.Stalls {
+		cfg.StallDurs = append(cfg.StallDurs, time.Duration(d))
+	}
+
+	if len(sc.Stalls) > 0 {
+		cfg.StallPer1024, cfg.MaxStalls = 48, 4
+	}
 
 	main := func() {
 		var (
@@ -1105,6 +1122,10 @@ func checkJoinFlush(v *Verdict, sc *JoinSc, jv joinView, res *simrt.Result) {
 		return
 	}
 
+	for range hist(res.Hist).notes("sim-stall") {
+		v.fault("discipline-goroutine-stalled")
+	}
+
 	div := sc.divider()
 	allowed := sc.Timeout + (sc.Timeout+div-1)/div
 
@@ -1121,7 +1142,7 @@ func checkJoinFlush(v *Verdict, sc *JoinSc, jv joinView, res *simrt.Result) {
 	for e, at := range jv.recvT {
 		st, sent := sentAt[e]
 		if !sent {
-			if endT-at > allowed && !res.AllDone {
+			if endT-at > allowed+stalledIn(res, at, endT) && !res.AllDone {
 				v.fail("element-not-flushed", "element %d accepted at t=%dns was still inside the discipline at t=%dns; Timeout %dns, inaccuracy %d%% allow %dns", e, at-jv.t0, endT-jv.t0, sc.Timeout, 100/div, allowed)
 				return
 			}
@@ -1129,8 +1150,8 @@ func checkJoinFlush(v *Verdict, sc *JoinSc, jv joinView, res *simrt.Result) {
 			continue
 		}
 
-		if st-at > allowed {
-			v.fail("flush-too-late", "element %d stayed %dns inside the discipline (accepted t=%d, written out t=%d); Timeout %dns and inaccuracy allow %dns", e, st-at, at-jv.t0, st-jv.t0, sc.Timeout, allowed)
+		if lat := stalledIn(res, at, st); st-at > allowed+lat {
+			v.fail("flush-too-late", "element %d stayed %dns inside the discipline (accepted t=%d, written out t=%d); Timeout %dns and inaccuracy allow %dns (plus %dns of injected scheduling latency)", e, st-at, at-jv.t0, st-jv.t0, sc.Timeout, allowed, lat)
 			return
 		}
 
